@@ -86,16 +86,25 @@ def main():
     rec["undecided_in"] = [c for c, r in rec["checks"].items() if r["exit"] == 2]
     d = os.path.join(VERIF, "seeded", sid)
     os.makedirs(d, exist_ok=True)
+    if skip and os.path.exists(os.path.join(d, "meta.json")):
+        try:
+            oldm = json.load(open(os.path.join(d, "meta.json")))
+            rec["confirmation"] = oldm["what_we_ran"]["confirmation (in the sub-agent's scratch worktree)"]
+            oldc = oldm["what_we_ran"].get("our checks with the patch applied to /repo (then reverted)", {})
+            rec["first_run_checks"] = oldm["what_we_ran"].get("first run of our checks (before strengthening)", oldc)
+        except Exception:
+            pass
     open(os.path.join(d, "patch.diff"), "w").write(open(patch).read())
     open(os.path.join(d, "demo.diff"), "w").write(open(demo).read())
     json.dump({"breaks_property": meta.get("property"), "what_changed": meta.get("what_changed"),
                "why_it_breaks": meta.get("why_it_breaks"), "needs_to_manifest": meta.get("needs_to_manifest"),
                "how_demonstrated": meta.get("how_demonstrated"),
                "what_we_ran": {"confirmation (in the sub-agent's scratch worktree)": rec["confirmation"],
+                               "first run of our checks (before strengthening)": rec.get("first_run_checks"),
                                "our checks with the patch applied to /repo (then reverted)": rec["checks"]},
                "detected_by": rec["detected_by"], "undecided_in": rec["undecided_in"]},
               open(os.path.join(d, "meta.json"), "w"), indent=1)
-    print(json.dumps({"seed": sid, "confirmed": rec["confirmation"].get("confirmed"), "detected_by": rec["detected_by"],
+    print(json.dumps({"seed": sid, "confirmed": (rec["confirmation"] or {}).get("confirmed"), "detected_by": rec["detected_by"],
                       "undecided_in": rec["undecided_in"]}))
 
 
